@@ -95,7 +95,8 @@ def r1_feed(ctx):
         okp = False
         for cb in pi.closure_bodies():
             for _, e in Resolver(cb).return_expr():
-                if is_call(e, 'AffFuncBase::contains') and e[2][0] == ('upvar', 'hyperplane'):
+                ct = prune.containment_test(ctx.facts, e)
+                if ct is not None and ct[0] in (('upvar', 'hyperplane'), ('param', 'hyperplane')) and ct[1][0] == 'param':
                     okp = True
         # the filtered points are the parent's witnesses
         src_ok = False
